@@ -100,7 +100,7 @@ META_LEAF = ("__typename",)
 INTRO = {
     "I1": "__schema { queryType { name } }",
     "I2": "__type(name: \"T\") { name kind fields { name } }",
-    # (`__type(name: "Nope")` makes the library resolver raise UnknownType, not a ResolverError: no outcome, not used here)
+    "I3": "__type(name: \"Nope\") { name }",          # unknown name: resolves to null (fixed in /repo f2efa6b)
     "I4": "__schema { types { name } }",
     "I5": "__schema { directives { name args { name } } mutationType { name } }",
     "I6": "__type(name: \"I\") { kind possibleTypes { name } }",
